@@ -122,6 +122,51 @@ def _frame_ok(out_model, in_model_leaves_by_field, base):
     return sorted(set(bad))
 
 
+def native_randomize_replay(name):
+    """R1: the real randomize_* function on the real G1 model for 4096 keys (vmapped) and several configured ranges (default and non-default, incl. offsets far from 0 and scale
+    ranges away from 1): every randomized entry lies in its configured range around the NOMINAL value; untouched entries keep their value."""
+    def replay(model):
+        env = env_of("locomotion")
+        base = env.base_model
+        tid = int(env.torso_body_id)
+        keys = jr.split(jr.key(123), 4096)
+        tol = 1e-5
+        if name == "randomize_friction":
+            for r in ((0.4, 1.0), (0.1, 0.2), (1.5, 3.0)):
+                pf = np.asarray(jax.vmap(lambda k_: RZ.randomize_friction(base, key=k_, friction_range=r).pair_friction)(keys))
+                blk = pf[:, 0:2, 0:2]
+                if blk.min() < r[0] - tol or blk.max() > r[1] + tol:
+                    return dict(reproduced=True, route="R1 (real randomize_friction, 4096 keys)", inputs=dict(friction_range=r), observed=dict(min=float(blk.min()), max=float(blk.max())))
+            return dict(reproduced=False, note="3 ranges x 4096 keys within range")
+        if name in ("randomize_friction_loss", "randomize_armature"):
+            nomv = env.nominal_friction_loss if name == "randomize_friction_loss" else env.nominal_armature
+            field = "dof_frictionloss" if name == "randomize_friction_loss" else "dof_armature"
+            kw = "nominal_friction_loss" if name == "randomize_friction_loss" else "nominal_armature"
+            for r in ((0.5, 2.0), (1.0, 1.05), (1.2, 1.3), (0.7, 0.8)):
+                out = np.asarray(jax.vmap(lambda k_: getattr(getattr(RZ, name)(base, key=k_, scale_range=r, **{kw: nomv}), field))(keys), np.float64)
+                nom64 = np.asarray(nomv, np.float64)
+                lo_, hi_ = nom64 * r[0], nom64 * r[1]
+                v = out[:, 6:]
+                if np.any(v < lo_ - tol * (1 + np.abs(lo_))) or np.any(v > hi_ + tol * (1 + np.abs(hi_))) or not np.array_equal(out[:, :6], np.broadcast_to(np.asarray(getattr(base, field))[:6], out[:, :6].shape)):
+                    w = np.argwhere((v < lo_ - tol * (1 + np.abs(lo_))) | (v > hi_ + tol * (1 + np.abs(hi_))))
+                    return dict(reproduced=True, route=f"R1 (real {name}, 4096 keys)", inputs=dict(scale_range=r), observed=dict(first_offending=[int(x) for x in w[0]] if len(w) else None,
+                                value=float(v[tuple(w[0])]) if len(w) else None, allowed=[float(lo_[w[0][1]]), float(hi_[w[0][1]])] if len(w) else None))
+            return dict(reproduced=False, note="4 ranges x 4096 keys within nominal*[lo, hi]; free-joint DOFs untouched")
+        nom64 = np.asarray(env.nominal_body_mass, np.float64)
+        for r, o in (((0.9, 1.1), (-1.0, 1.0)), ((1.0, 1.3), (2.0, 3.0)), ((0.5, 0.9), (1.0, 2.0)), ((1.0, 1.0), (0.0, 0.0)), ((0.8, 1.2), (-0.5, -0.25))):
+            out = np.asarray(jax.vmap(lambda k_: RZ.randomize_body_mass(base, key=k_, nominal_body_mass=env.nominal_body_mass, scale_range=r, torso_body_id=tid, torso_offset_range=o).body_mass)(keys), np.float64)
+            lo_, hi_ = nom64 * r[0], nom64 * r[1]
+            lo_[tid] += o[0]
+            hi_[tid] += o[1]
+            badm = (out < lo_ - tol * (1 + np.abs(lo_))) | (out > hi_ + tol * (1 + np.abs(hi_)))
+            if badm.any():
+                w = np.argwhere(badm)[0]
+                return dict(reproduced=True, route="R1 (real randomize_body_mass on the G1 model, 4096 keys)", inputs=dict(scale_range=r, torso_offset_range=o, key_index=int(w[0]), body=int(w[1]), torso_body_id=tid),
+                            observed=dict(mass=float(out[w[0], w[1]]), allowed=[float(lo_[w[1]]), float(hi_[w[1]])], offending_keys=int(badm.any(axis=1).sum())))
+        return dict(reproduced=False, note="5 (scale, offset) range pairs x 4096 keys: every mass within nominal*[lo, hi] (+ offset range for the torso)")
+    return replay
+
+
 def unit_randomize(S):
     env = env_of("locomotion")
     base = env.base_model
@@ -157,7 +202,7 @@ def unit_randomize(S):
             rngi = [i >= 0, i < new.shape[0], j >= 0, j < new.shape[1]]
             ax = uniform_axioms(ctx)
             S.prove(f"{name}/within-range", ctx, z3.Implies(touched, z3.And(new.at((i, j)) >= lo, new.at((i, j)) <= hi)), hyps=hyp + rngi + ax, function=F.format(name),
-                    what="contact friction of the two foot-floor pairs (block [0:2, 0:2]) lies in [friction_lo, friction_hi]")
+                    what="contact friction of the two foot-floor pairs (block [0:2, 0:2]) lies in [friction_lo, friction_hi]", replay=native_randomize_replay(name))
             S.prove(f"{name}/untouched-entries", ctx, z3.Implies(z3.Not(touched), new.at((i, j)) == old.at((i, j))), hyps=hyp + rngi, function=F.format(name),
                     what="every other entry of pair_friction is the input entry")
         else:
@@ -174,7 +219,7 @@ def unit_randomize(S):
             else:
                 goal = z3.And(new.at((i,)) >= nomi(i) * lo, new.at((i,)) <= nomi(i) * hi)
                 what = "every actuated DOF (index >= 6) lies in nominal*[lo, hi] around the NOMINAL value"
-            S.prove(f"{name}/within-range", ctx, goal, hyps=hyp + inr + nonneg + ax + [lo >= 0], function=F.format(name), what=what)
+            S.prove(f"{name}/within-range", ctx, goal, hyps=hyp + inr + nonneg + ax + [lo >= 0], function=F.format(name), what=what, replay=native_randomize_replay(name))
             if start:
                 S.prove(f"{name}/untouched-entries", ctx, new.at((i,)) == old.at((i,)), hyps=[i >= 0, i < start], function=F.format(name), what="the 6 free-joint DOFs keep their input value")
         others = [f for f in FIELDS if f != field]
